@@ -195,4 +195,18 @@ Section Bcast.
       rewrite <- E. apply step_adjoint; [congruence|].
       now apply (broadcast_length r (size_out s)).
   Qed.
+  (* reductions: np.sum over axes is a chain of the same sums, and its VJP
+     (numpy_vjps.repeat_to_match_shape: reshape to the keepdims shape, then
+     broadcast) is the chain of stretches - the adjoint, and in the input's space *)
+  Theorem sum_rule_adjoint : forall ss sz x g,
+      chained sz ss -> length x = sz -> length g = final_size sz ss ->
+      dot g (unbroadcast_steps ss x) = dot (broadcast_steps ss g) x
+      /\ length (broadcast_steps ss g) = length x.
+  Proof.
+    intros ss sz x g Hc Hx Hg.
+    destruct (unbroadcast_adjoint ss sz x g Hc Hx Hg) as [E _]. split.
+    - rewrite (dot_comm K k0 k1 kadd kmul ksub kopp Kring g), <- E.
+      apply (dot_comm K k0 k1 kadd kmul ksub kopp Kring).
+    - rewrite (broadcast_length ss sz g Hc Hg). now symmetry.
+  Qed.
 End Bcast.
